@@ -652,6 +652,19 @@ impl Node {
         }
         debug!("Payment is valid for record {pretty_key}");
 
+        // verify the quotes we issued were issued for the address being stored
+        let quoted_content = address.as_xorname().unwrap_or_default();
+        if payment
+            .quotes_by_peer(&self_peer_id)
+            .iter()
+            .any(|quote| quote.content != quoted_content)
+        {
+            warn!("Payment quote is not for record {pretty_key}");
+            return Err(Error::InvalidRequest(format!(
+                "Payment quote is not for record {pretty_key}"
+            )));
+        }
+
         // verify quote expiration
         if payment.has_expired() {
             warn!("Payment quote has expired for record {pretty_key}");
